@@ -131,6 +131,20 @@ func (d *Driver) Finish(i int, status int) {
 	d.logf("finish(#%d started +%v, %d)", f.C.ID, f.Started, status)
 }
 
+// FinishPanic completes in-flight request i by panicking inside the protected handler
+// (as a reverse proxy does with http.ErrAbortHandler when the backend dies mid-body).
+func (d *Driver) FinishPanic(i int) {
+	f := d.InFlight[i]
+	d.InFlight = append(d.InFlight[:i], d.InFlight[i+1:]...)
+	if err := f.C.Finish(sim.Outcome{Panic: true}); err != nil {
+		d.T.Fatalf("%v", err)
+	}
+	if f.C.Panicked == nil {
+		d.T.Fatalf("the handler's panic did not propagate through the breaker")
+	}
+	d.logf("finish(#%d started +%v, panic)", f.C.ID, f.Started)
+}
+
 // State reads the breaker state at a quiescent point.
 func (d *Driver) State() string {
 	s := d.CB.String()
